@@ -50,13 +50,24 @@ func die(err error) {
 }
 
 type yieldSpec struct {
+	narrow *regexp.Regexp // when set (flavour sched): only statements whose header matches
 	all   bool
 	recvs map[string]bool
 	funcs map[string]bool
 }
 
+var narrowMode bool
+
 func main() {
 	flavour, out := os.Args[1], os.Args[2]
+	// schedfull = sched with every statement of the listed functions instrumented;
+	// sched honours the narrow=<regexp> filters of hooks/yields.txt
+	if flavour == "sched" {
+		narrowMode = true
+	}
+	if flavour == "schedfull" {
+		flavour = "sched"
+	}
 	die(os.MkdirAll(out, 0o755))
 	ov := map[string]string{}
 	// Development aid (never set by a registered command): VERIF_MUTANT_OVERLAY names a JSON
@@ -205,6 +216,10 @@ func readYields() map[string]yieldSpec {
 				for _, r := range strings.Split(a[5:], ",") {
 					ys.recvs[r] = true
 				}
+			case strings.HasPrefix(a, "narrow="):
+				if narrowMode {
+					ys.narrow = regexp.MustCompile(a[7:])
+				}
 			case strings.HasPrefix(a, "func="):
 				for _, r := range strings.Split(a[5:], ",") {
 					ys.funcs[r] = true
@@ -269,6 +284,29 @@ func insertYields(file, src string, ys yieldSpec) (string, int) {
 				switch st.(type) {
 				case *ast.LabeledStmt, *ast.CaseClause, *ast.CommClause:
 					continue
+				}
+				if ys.narrow != nil {
+					// header text: up to the opening brace of a compound statement
+					a, b := fset.Position(st.Pos()).Offset, fset.Position(st.End()).Offset
+					switch x := st.(type) {
+					case *ast.IfStmt:
+						b = fset.Position(x.Body.Lbrace).Offset
+					case *ast.ForStmt:
+						b = fset.Position(x.Body.Lbrace).Offset
+					case *ast.RangeStmt:
+						b = fset.Position(x.Body.Lbrace).Offset
+					case *ast.SwitchStmt:
+						b = fset.Position(x.Body.Lbrace).Offset
+					case *ast.TypeSwitchStmt:
+						b = fset.Position(x.Body.Lbrace).Offset
+					case *ast.SelectStmt:
+						b = fset.Position(x.Body.Lbrace).Offset
+					case *ast.BlockStmt:
+						b = a + 1
+					}
+					if !ys.narrow.MatchString(src[a:b]) {
+						continue
+					}
 				}
 				offs = append(offs, fset.Position(st.Pos()).Offset)
 			}
